@@ -163,7 +163,15 @@ impl<T> RawTable<T> {
             // support them, so never split a table of them.
             return self.table.reserve(additional, hasher);
         }
-        let need = self.leftovers.as_ref().map_or(0, |t| t.table.len()) + additional;
+        let need = match self
+            .leftovers
+            .as_ref()
+            .map_or(0, |t| t.table.len())
+            .checked_add(additional)
+        {
+            Some(need) => need,
+            None => panic!("Hash table capacity overflow"),
+        };
         if self.table.capacity() - self.table.len() > need {
             // We can accommodate the additional items without resizing, so all is well.
             if cfg!(debug_assertions) {
@@ -210,7 +218,12 @@ impl<T> RawTable<T> {
             // See `reserve`.
             return self.table.try_reserve(additional, hasher);
         }
-        let need = self.leftovers.as_ref().map_or(0, |t| t.table.len()) + additional;
+        let need = self
+            .leftovers
+            .as_ref()
+            .map_or(0, |t| t.table.len())
+            .checked_add(additional)
+            .ok_or(TryReserveError::CapacityOverflow)?;
         if self.table.capacity() - self.table.len() > need {
             // we can accommodate the additional items without resizing, so all good
             if cfg!(debug_assertions) {
@@ -500,10 +513,15 @@ impl<T> RawTable<T> {
         // We also need to make sure we can fit the additional capacity required for `extra`.
         // Normally, that'll be handled by `inserts`, but not always!
         let add = usize::max(extra, inserts);
+        let capacity = match need.checked_add(inserts).and_then(|c| c.checked_add(add)) {
+            Some(capacity) => capacity,
+            None if fallible => return Err(TryReserveError::CapacityOverflow),
+            None => panic!("Hash table capacity overflow"),
+        };
         let new_table = if fallible {
-            raw::RawTable::try_with_capacity(need + inserts + add)?
+            raw::RawTable::try_with_capacity(capacity)?
         } else {
-            raw::RawTable::with_capacity(need + inserts + add)
+            raw::RawTable::with_capacity(capacity)
         };
         let old_table = mem::replace(&mut self.table, new_table);
         if old_table.len() != 0 {
